@@ -40,6 +40,14 @@ def lint_r4_lock(repo):
                 # the struct field declaration `state: Mutex<..>` does not match `shared.state`
                 out.append("R4 premise: %s:%d uses shared.state without .lock()%s" % (f, src.count("\n", 0, m.start()) + 1, "" if in_exec else " / .try_lock()"))
     src = strip_comments(open(os.path.join(repo, "batcher/src/lib.rs")).read())
+    # inside `Receiver::exec` every `.lock()` is rewritten into an acquisition of the channel state (batcher_receiver.vx,
+    # `replace-each R4 mcall lock`): it must not be a lock of some other mutex
+    es = fn_span(src, "exec")
+    if es:
+        for m in re.finditer(r"\.\s*lock\s*\(\s*\)", src[es[0]:es[1]]):
+            before = src[es[0]:es[0] + m.start()]
+            if not re.search(r"shared\s*\.\s*state\s*$", before):
+                out.append("R4 premise: batcher/src/lib.rs:%d `.lock()` inside Receiver::exec on something other than self.shared.state" % (src.count("\n", 0, es[0] + m.start()) + 1))
     if not re.search(r"state\s*:\s*Mutex\s*<\s*State\s*<", src):
         out.append("R4 premise: batcher/src/lib.rs: the shared state is no longer a `Mutex<State<..>>` field")
     return out
